@@ -93,7 +93,27 @@ def valve_rig(rng):
     return spec
 
 
+def run_testnet(c, rng):
+    """The repository's own hand-made test networks (one feature each) as a second corpus."""
+    wn, desc = common.testnet(rng)
+    if wn is None:
+        c.inconclusive('testnet_unusable: %s' % desc)
+        return
+    hw = rng.choice(['default', 'piecewise'])
+    c.sample = dict(desc, HW_approx=hw)
+    c.set_sig('testnet', desc['file'], hw)
+    tr = simobs.run_wntr(wn, deep=False, HW_approx=hw)
+    if not simobs.converged(tr):
+        c.inconclusive('sim_failed: %s' % (type(tr.exception).__name__ if tr.exception else 'not_converged'))
+        return
+    c.count('testnet_cases')
+    check_links(c, wn, tr.results, hw, dict(desc, HW_approx=hw))
+    c.nontrivial = True
+
+
 def run_case(c, rng):
+    if c.index % 20 == 17:
+        return run_testnet(c, rng)
     kind = c.index % 4
     if kind == 3:
         spec = valve_rig(rng)
